@@ -332,6 +332,11 @@ func runC09(c *Ctx) {
 	// so only where the error is known to be nil)
 	c.ruleM3c("R12-failed-return-is-a-fault")
 	c.Min("R12-failed-return-is-a-fault", 2)
+	// R13: whoever recovers a panic reports it: in every function of the module that calls recover(), each
+	// way on from "the recovered value is not nil" to the end of that function stores a new error into an
+	// error variable of the enclosing function. A recover that turns only some kinds of panic value into
+	// an error (a type switch without default) turns the others into success
+	c.ruleRecoverAlwaysReports("R13-a-recovered-panic-is-reported")
 	c.Min("R9-lock-released-when-faulting", 20)
 	// R10
 	c.ruleNoZeroForAFault("R10-no-zero-for-a-fault")
@@ -956,4 +961,77 @@ func (c *Ctx) ruleNoZeroForAFault(rule string) {
 		c.Check(rule, fmt.Sprintf("MapVar.Evaluate#zero%d", k), okMiss, in.Pos(), "reflect.Zero is produced here outside the `key absent from the map` edge: an unreadable element (an index outside the slice or array) must fail, not read as zero")
 	})
 	c.Check(rule, "MapVar.Evaluate#inventory", n > 0, f.Pos(), "%d reflect.Zero site(s) examined", n)
+}
+
+// ruleRecoverAlwaysReports (R13), see runC09.
+func (c *Ctx) ruleRecoverAlwaysReports(rule string) {
+	n := 0
+	for _, f := range c.AllFns {
+		if f.Pkg == nil || !strings.HasPrefix(f.Pkg.Pkg.Path(), modPath) || f.Pkg.Pkg.Path() == pParser {
+			continue
+		}
+		var rec *ssa.Call
+		eachInstr(f, func(in ssa.Instruction) {
+			if call, ok := in.(*ssa.Call); ok {
+				if bi, isB := call.Call.Value.(*ssa.Builtin); isB && bi.Name() == "recover" {
+					rec = call
+				}
+			}
+		})
+		if rec == nil {
+			continue
+		}
+		n++
+		x := c.Index(f)
+		isErrStore := func(in ssa.Instruction) bool {
+			st, ok := in.(*ssa.Store)
+			if !ok || !isErrorType(st.Val.Type()) {
+				return false
+			}
+			if _, isFV := st.Addr.(*ssa.FreeVar); !isFV {
+				if al, isAl := x.ResolveAddr(st.Addr).(*ssa.Alloc); !isAl || al.Parent() == f {
+					return false
+				}
+			}
+			return isNewError(st.Val) || neverNil(st.Val)
+		}
+		var starts []ssa.Instruction
+		for _, b := range f.Blocks {
+			iff, isIf := b.Instrs[len(b.Instrs)-1].(*ssa.If)
+			if !isIf {
+				continue
+			}
+			v, neq, isNil := nilCheck(iff.Cond)
+			if !isNil || x.Origin(v) != ssa.Value(rec) {
+				continue
+			}
+			succ := b.Succs[1]
+			if neq {
+				succ = b.Succs[0]
+			}
+			starts = append(starts, succ.Instrs[0])
+		}
+		key := fnName(rootOf(f)) + "#recover"
+		if f.Parent() != nil {
+			key = fnName(f) + "#recover"
+		}
+		if len(starts) == 0 {
+			c.Check(rule, key, false, rec.Pos(), "the value recover() returned is not tested against nil: not analysable")
+			continue
+		}
+		bad := false
+		for _, s0 := range starts {
+			if isErrStore(s0) {
+				continue
+			}
+			if _, silent := pathFrom(s0, isReturn, isErrStore); silent {
+				bad = true
+			}
+		}
+		c.Check(rule, key, !bad, rec.Pos(), "after recover() returned a panic value a way leads to the end of the function without a new error being stored into an error variable of the enclosing function: that panic would count as success")
+	}
+	if n == 0 {
+		c.Lost(rule, "calls of recover()")
+	}
+	c.Min(rule, 5)
 }
